@@ -49,7 +49,7 @@ def parseShares (s : String) : Option (List (Nat × Bool)) :=
       pure (x :: r)
   go 0 toks
 
-def stepLine (st? : Option St) (line : String) : Option St × String :=
+def stepLine1 (st? : Option St) (line : String) : Option St × String :=
   let ws := words line
   match ws.head? with
   | some "quorum" =>
@@ -83,5 +83,27 @@ def stepLine (st? : Option St) (line : String) : Option St × String :=
     | _, _, _, _, _ => (st?, "bad-op")
   | _ => (st?, "bad-op")
 
+/-- driver state: the runner model and the slot offset of the duty started last (`ShouldProcessDuty` /
+    `ShouldProcessNonBeaconDuty` refuse a duty whose slot is not later) -/
+def stepLine (s : Option St × Nat) (line : String) : (Option St × Nat) × String :=
+  let ws := words line
+  match ws.head? with
+  | some "next" =>
+    match s.1, (kv ws "d").bind String.toNat?, kv ws "dec" with
+    | some st, some d, some dec =>
+      if d ≤ s.2 then (s, "refused")
+      else
+        let hasCons := st.style != .first
+        let st' := nextDuty st (dec != "0" || !hasCons)
+        ((some st', d), s!"ok q={st'.q} k={st'.expected.length}")
+    | _, _, _ => (s, "bad-op")
+  | some "exitprobe" => (s, "done")   -- implementation-side oracle probe, nothing to model
+  | some "reset" =>
+    let (st', o) := stepLine1 s.1 line
+    ((st', 0), o)
+  | _ =>
+    let (st', o) := stepLine1 s.1 line
+    ((st', s.2), o)
+
 def main : IO Unit := do
-  loopState (← IO.getStdin) (← IO.getStdout) (none : Option St) stepLine
+  loopState (← IO.getStdin) (← IO.getStdout) ((none, 0) : Option St × Nat) stepLine
